@@ -228,6 +228,9 @@ func allFlows(thorough bool) []*flowDef {
 		if onlyThorough && !thorough {
 			return
 		}
+		if thorough {
+			variants = "A,B" // thorough: every flow over both storage shapes
+		}
 		for _, v := range strings.Split(variants, ",") {
 			for rt := range rig.Routers {
 				out = append(out, &flowDef{name: fmt.Sprintf("%s/%s@%s/%s", family, kase, v, rig.Routers[rt]), family: family, kase: kase,
